@@ -122,18 +122,22 @@ def run(ctx):
             for exc in (MemoryError, OSError):
                 left = [nfail]
 
-                class Faulty(KDF):
+                class Faulty:
+                    """stands in for the KDF class (which cannot be subclassed): the first `nfail` uses of any instance raise, later ones are the real thing"""
+                    def __init__(s, *a, **k):
+                        s.real = KDF(*a, **k)
+
                     def verify(s, *a, **k):
                         if left[0] > 0:
                             left[0] -= 1
                             raise exc("injected fault in the key derivation")
-                        return KDF.verify(s, *a, **k)
+                        return s.real.verify(*a, **k)
 
                     def derive(s, *a, **k):
                         if left[0] > 0:
                             left[0] -= 1
                             raise exc("injected fault in the key derivation")
-                        return KDF.derive(s, *a, **k)
+                        return s.real.derive(*a, **k)
                 holder.Scrypt = Faulty
                 try:
                     for q in ("a_bit", "empty"):
